@@ -184,6 +184,14 @@ impl Transport {
     }
 }
 
+/// a transient failure of the *read* half: the kind rotates with the number of errors injected so far (a connection must
+/// treat every kind alike: one error result, nothing lost, nothing ended) — `Interrupted`, `WouldBlock`, `TimedOut` included
+fn injected_read_error(nth: usize) -> io::Error {
+    const KINDS: [io::ErrorKind; 7] = [io::ErrorKind::ConnectionReset, io::ErrorKind::Interrupted, io::ErrorKind::WouldBlock, io::ErrorKind::TimedOut,
+        io::ErrorKind::BrokenPipe, io::ErrorKind::UnexpectedEof, io::ErrorKind::Other];
+    io::Error::new(KINDS[nth % KINDS.len()], "injected transport error")
+}
+
 fn injected_error() -> io::Error {
     io::Error::new(io::ErrorKind::ConnectionReset, "injected transport error")
 }
@@ -193,7 +201,7 @@ impl Read for Transport {
         loop {
             match self.read_step(buf) {
                 RStep::Got(n) => return Ok(n),
-                RStep::Err => return Err(injected_error()),
+                RStep::Err => { let nth = self.0.lock().unwrap().injected; return Err(injected_read_error(nth)); },
                 // a blocking transport has no Pending: the call simply blocks, i.e. the event has no visible effect
                 RStep::Pending { wake: true } => continue,
                 RStep::Pending { wake: false } => {
@@ -228,7 +236,7 @@ impl AsyncRead for Transport {
                 buf.put_slice(&tmp[..n]);
                 Poll::Ready(Ok(()))
             },
-            RStep::Err => Poll::Ready(Err(injected_error())),
+            RStep::Err => { let nth = self.0.lock().unwrap().injected; Poll::Ready(Err(injected_read_error(nth))) },
             RStep::Pending { wake } => {
                 if wake {
                     cx.waker().wake_by_ref();
